@@ -100,6 +100,7 @@ def check(run, cases=None):
         if len(batch) == 7:
             _graph_sum(run, batch)
             batch = []
+    optimized_mode(run)
     run.notes['tolerance'] = 'error: abs dev <= %g*4*S; chi2: abs dev <= %g*40*max|W|*(S+4)^2, S = largest translation magnitude' % (TOL, TOL)
     run.assumptions = ['inputs restricted to the rational lattice (DESIGN.md L1)', 'math.atan2 for the SE(2) angle atom']
 
@@ -140,6 +141,47 @@ def _graph_sum(run, batch):
     run.notes['graph_chi2_sums'] = run.notes.get('graph_chi2_sums', 0) + 1
     if abs(got - total) > tol:
         run.violation(dict(check='graph-chi2'), 'Graph.calc_chi2 %r != sum of exact edge chi2 %r' % (got, total), dict(cases=[b[0] for b in batch]))
+        return
+    # Provenance: a deep copy / a pickle round trip of the graph is a graph of its own -- its chi^2 is that of ITS vertices, whatever happens
+    # to the original afterwards
+    import copy
+    import pickle
+    try:
+        twin = copy.deepcopy(g) if run.notes['graph_chi2_sums'] % 2 else pickle.loads(pickle.dumps(g))
+        for v in g._vertices:
+            v.pose = type(v.pose).identity()
+        got2 = twin.calc_chi2()
+    except Exception as ex:  # noqa
+        run.violation(dict(check='graph-chi2-copy'), 'exception %r copying a graph / evaluating the copy' % (ex,), dict(cases=[b[0] for b in batch]))
+        return
+    if abs(got2 - total) > tol:
+        run.violation(dict(check='graph-chi2-copy'), 'chi2 of a deep copy / unpickled copy %r != sum of exact edge chi2 %r after the ORIGINAL was moved' % (got2, total), dict(cases=[b[0] for b in batch]))
+    if len(OPT_BATCHES) < 60:
+        OPT_BATCHES.append(([b[0] for b in batch], total - (sum(b[1] for n, b in enumerate(batch) if n % 3 == 0)), tol))
+
+
+OPT_BATCHES = []
+
+
+def optimized_mode(run):
+    """The same graph sums in a `python -O` interpreter (assert statements stripped)."""
+    import json
+    import os
+    import subprocess
+    import sys
+    if not OPT_BATCHES:
+        return
+    env = dict(os.environ)
+    p = subprocess.run([sys.executable, '-O', '-m', 'harness.optmode'], input=json.dumps([b[0] for b in OPT_BATCHES]), stdout=subprocess.PIPE, stderr=subprocess.PIPE,
+                       text=True, env=env, timeout=600)
+    if p.returncode != 0:
+        raise RuntimeError('python -O subprocess failed: %s' % p.stderr[-800:])
+    vals = json.loads(p.stdout)
+    for (cases, total, tol), got in zip(OPT_BATCHES, vals):
+        if isinstance(got, str) or abs(got - total) > tol:
+            run.violation(dict(check='graph-chi2-python-O'), 'under `python -O` Graph.calc_chi2 gives %r, sum of exact edge chi2 is %r' % (got, total), dict(cases=cases))
+    run.notes['graph_chi2_sums_under_python_O'] = len(vals)
+    del OPT_BATCHES[:]
 
 
 def replay(run, rep):
